@@ -78,6 +78,22 @@ var entries = []entry{
 		err := reused.Write(r, d)
 		return r.Buf, r, err
 	}},
+	// Marshal with the caller's own Writer: the bytes handed back have to stay what they are when
+	// the Writer is used again ("Marshal copies the buffer before returning")
+	{"oj.Marshal(own writer, kept)", false, false, func(d any, o wx.Opt) ([]byte, *wx.Rec, error) {
+		wr := &oj.Writer{Options: o.Options()}
+		b, err := oj.Marshal(d, wr)
+		if err != nil {
+			return b, nil, err
+		}
+		keep := append([]byte(nil), b...)
+		_ = wr.JSON([]any{false, false, "overwritten", int64(1234567890), nil})
+		_, _ = oj.Marshal(map[string]any{"zzzzzzzz": "zzzzzzzzzzzzzzzz"}, wr)
+		if !bytes.Equal(b, keep) {
+			return b, nil, fmt.Errorf("the result of Marshal changed when its Writer was used again: %q became %q", keep, b)
+		}
+		return b, nil, nil
+	}},
 	{"pretty.JSON", true, false, func(d any, o wx.Opt) ([]byte, *wx.Rec, error) {
 		return []byte(pretty.JSON(d, prettyArgs(o)...)), nil, nil
 	}},
